@@ -29,7 +29,7 @@ class C27(Spec):
                   "extension / side branch / orphan / last block of a heavier branch, broadcast or sync or download, with none / "
                   "some / ALL of the block's transactions in the receiving node's mempool, the duplicate-tail mutant minted "
                   "with the tx and state roots its body really gives, optionally a node restart, then the "
-                  "genuine block; ProcessBlock result, tip, height index, bodies by height and by hash, TDs, orphan pool and "
+                  "genuine block (header roots also EMPTY, one byte short / long, all-zero); ProcessBlock result, tip, height index, bodies by height and by hash, TDs, orphan pool and "
                   "tx index compared with the Lean driver; the property predicates evaluated on the implementation.")
     level_note = ("validity (signatures, duplicates, tx root, state root, consensus check) enters the model as oracle inputs "
                   "per block/transaction, re-derived from the real objects by the harness; self-produced blocks "
